@@ -40,6 +40,10 @@ def main():
             for n in ("patch.diff", "demo.py", "meta.json"):
                 if not (d / n).exists():
                     bad.append(f"seeded/{d.name}: {n} missing")
+    lock = VERIF / "harness" / "anchors.lock.json"
+    head = subprocess.check_output(["git", "-C", "/repo", "rev-parse", "HEAD"], text=True).strip()
+    if not lock.exists() or json.loads(lock.read_text()).get("head") != head:
+        bad.append("harness/anchors.lock.json was not recorded at /repo's HEAD (run python -m harness.tools.anchor_lock once all checks pass)")
     man = json.loads((VERIF / "MANIFEST.json").read_text())
     claimed = json.loads((VERIF / "harness" / "claimed.json").read_text())
     if sorted(c["property_id"] for c in man["checks"]) != sorted(claimed):
